@@ -368,6 +368,9 @@ func (e *env) serveRaw(c net.Conn) {
 	var head strings.Builder
 	fmt.Fprintf(&head, "HTTP/1.1 %d %s\r\n", x.status, http.StatusText(x.status))
 	head.WriteString("Content-Type: text/x-test\r\nX-E2e: v\r\nX-Multi: a\r\nX-Multi: b\r\n")
+	// response headers named like request-forwarding headers (an echo service, an inner proxy reporting what it saw),
+	// a cookie, caching and a location: all end-to-end in a response
+	head.WriteString("X-Real-Ip: 10.1.2.3\r\nX-Forwarded-For: 10.9.9.9\r\nX-Forwarded-Proto: https\r\nX-Forwarded-Host: inner.example\r\nSet-Cookie: k=v; Path=/\r\nEtag: \"abc\"\r\nLocation: /elsewhere\r\nServer: backend/1.0\r\n")
 	if x.gz {
 		head.WriteString("Content-Encoding: gzip\r\n")
 	}
@@ -618,7 +621,10 @@ func (c *comp) Run(h *hlib.History) ([]hlib.Mon, bool) {
 					hit("normal response %d with %d body bytes (framing %d, %d pieces) reached the client as %d with %d bytes, err %v",
 						x.status, len(x.body), x.framing, x.pieces, clientStatus, len(clientBody), cerr)
 				}
-				if clientHdr.Get("X-E2e") != "v" || clientHdr.Get("Content-Type") != "text/x-test" || strings.Join(clientHdr["X-Multi"], ",") != "a,b" {
+				if clientHdr.Get("X-E2e") != "v" || clientHdr.Get("Content-Type") != "text/x-test" || strings.Join(clientHdr["X-Multi"], ",") != "a,b" ||
+					clientHdr.Get("X-Real-Ip") != "10.1.2.3" || clientHdr.Get("X-Forwarded-For") != "10.9.9.9" || clientHdr.Get("X-Forwarded-Proto") != "https" ||
+					clientHdr.Get("X-Forwarded-Host") != "inner.example" || clientHdr.Get("Set-Cookie") != "k=v; Path=/" || clientHdr.Get("Etag") != `"abc"` ||
+					clientHdr.Get("Location") != "/elsewhere" || clientHdr.Get("Server") != "backend/1.0" {
 					hit("end-to-end response headers changed: %v", clientHdr)
 				}
 				if x.gz && clientHdr.Get("Content-Encoding") != "gzip" {
